@@ -349,6 +349,9 @@ ARGS_LOOP:
 		// different level. It is as if it was ignoring getoptions.Pass.
 		if optPair, is := isOption(iterator.Value(), mode, false); is {
 
+			// A single cli argument can hold multiple unknown options (bundling), pass it through only once.
+			passedThrough := false
+
 			// iterate over the possible cli args and try matching against expectations
 			for _, p := range optPair {
 				// handle full option match
@@ -370,7 +373,10 @@ ARGS_LOOP:
 
 					switch currentProgramNode.unknownMode {
 					case Pass, Warn:
-						currentProgramNode.ChildText = append(currentProgramNode.ChildText, iterator.Value())
+						if !passedThrough {
+							currentProgramNode.ChildText = append(currentProgramNode.ChildText, iterator.Value())
+							passedThrough = true
+						}
 					}
 					continue
 				}
